@@ -204,7 +204,9 @@ class JointDistribution:
             # Ensure parameter names match, otherwise return the joint distribution
             if set(self._likelihoods[0].get_parameter_names()) != set(self._distributions[0].get_parameter_names()):
                 return self
-            return self._add_constants_to_density(Posterior(self._likelihoods[0], self._distributions[0]))
+            # The posterior is a distribution of the prior's random variable: give it that name so that
+            # the remaining parameter can also be fixed by keyword.
+            return self._add_constants_to_density(Posterior(self._likelihoods[0], self._distributions[0], name=self._distributions[0].name))
 
         # If exactly one distribution and no likelihoods its a Distribution
         if n_dist == 1 and n_likelihood == 0:
